@@ -80,7 +80,10 @@ func (e *Engine) mapWF(st *State, mi mapInfo) Term {
 	pos := T(SBool, "(forall ((q_r Int) (q_k %s)) (! (=> (select (select %s q_r) q_k) (< 0 (select %s q_r))) :pattern ((select (select %s q_r) q_k))))", mi.ksort, dom.S, card.S, dom.S)
 	witness := T(SBool, "(forall ((q_r Int)) (! (=> (< 0 (select %s q_r)) (select (select %s q_r) (%s (select %s q_r)))) :pattern ((select %s q_r))))", card.S, dom.S, wit, dom.S, card.S)
 	nilmap := T(SBool, "(and (= (select %s 0) 0) (forall ((q_k %s)) (! (not (select (select %s 0) q_k)) :pattern ((select (select %s 0) q_k)))))", card.S, mi.ksort, dom.S, dom.S)
-	return And(nonneg, pos, witness, nilmap)
+	// the cardinality is a function of the domain (sets with the same members have the same size)
+	cf := e.ctx.Fun("cardof_"+sanitize(string(mi.ksort)), []Sort{ArrSort(mi.ksort, SBool)}, SInt)
+	fun := T(SBool, "(forall ((q_r Int)) (! (= (select %s q_r) (%s (select %s q_r))) :pattern ((select %s q_r))))", card.S, cf, dom.S, card.S)
+	return And(nonneg, pos, witness, nilmap, fun)
 }
 
 func (e *Engine) touchMap(st *State, mi mapInfo) {
